@@ -44,13 +44,13 @@ CHECKS = {
     ),
     "C02": dict(
         technique="exhaustive program-grammar product x Eulerian lattice walk on the real Model; spec-level float64 scipy density evaluator as oracle",
-        text="For each of 5543 (thorough 16487) generated model programs (16 hierarchy skeletons of depth <=3, two of them with a shared cached intermediate feeding two distributions with <=4 distributed variables x every flag combination {observed, parameter, neither, both} x per_obs subsets; Dist nodes without a variable, weak variables with distributions, flagged variables without one; transformed variables via 7 entry points x 3 families; user nodes for every non-empty subset of the three totals; 15 DistRegBuilder models) the valuation lattice of the strong variables is walked by single assignments on one live model (Euler circuit over 3 values per variable for canonical programs), in three walk modes: auto-update, manual update(), and auto-update off + targeted update(_model_log_prob|lik|prior) followed by update(). User nodes include non-scalar ones (forwarded with their shape); assignments cycle through new jax array, new numpy array, and in-place edit of the stored numpy array re-assigned as the same object. After every transition the three totals, every Dist node, every Var.log_prob, the lik+prior identity and per_obs invariance are compared with a float64 scipy evaluator.",
+        text="For each of 5543 (thorough 16487) generated model programs (16 hierarchy skeletons of depth <=3, two of them with a shared cached intermediate feeding two distributions with <=4 distributed variables x every flag combination {observed, parameter, neither, both} x per_obs subsets; Dist nodes without a variable, weak variables with distributions, flagged variables without one; transformed variables via 7 entry points x 3 families; user nodes for every non-empty subset of the three totals; 15 DistRegBuilder models; distributions from TFP's numpy substrate alone and mixed with jax-substrate ones) the valuation lattice of the strong variables is walked by single assignments on one live model (Euler circuit over 3 values per variable for canonical programs), in three walk modes: auto-update, manual update(), and auto-update off + targeted update(_model_log_prob|lik|prior) followed by update(), and afterwards a save/restore segment (Model.state taken while nodes are pending, walk continued, snapshot loaded, update(), everything compared). User nodes include non-scalar ones (forwarded with their shape); assignments cycle through new jax array, new numpy array, and in-place edit of the stored numpy array re-assigned as the same object. After every transition the three totals, every Dist node, every Var.log_prob, the lik+prior identity and per_obs invariance are compared with a float64 scipy evaluator.",
         note="Nothing is claimed between lattice points; tolerance 4e-6*sum|terms| + 4e-6 against observed noise 3e-7; scipy densities, numpy eigvalsh and closed-form Jacobians of Exp/Softplus/Scale and TFP's default bijectors are trusted; in quick, non-canonical flag combinations with >=3 distributed variables get 4 of the per_obs subsets.",
         ref="3/C02",
     ),
     "C03": dict(
         technique="explicit-state BFS over interface call histories on the real code (closure for eager calls, depth-bounded for jit/vmap modes) with fresh-model and differential oracles",
-        text="Per (program in {hierarchy with prediction nodes, GLM, transformed, node/variable name clash, distreg, user log-prob node}, user-model auto_update on/off, LieselInterface; GooseModel for one config) histories of update_state calls on ONE interface instance are explored: part A eager calls with 4 positions x 3 states to closure of the canonical state (digest of the private copy's observable fields + last result + jit-cache signature); part B modes {eager, jit, vmap batch 3} with 2 positions x 3 states to depth 2 (thorough 3). Every transition is replayed on a fresh interface and checked against a fresh oracle model, a bit-exact differential table (history independence), deep snapshots of input state / position / user's model, extract_position round trips with both key kinds, and log_prob against the model and the scipy reference. Dict / NamedTuple / plain dataclass / dataclass with __post_init__ pre-processing and an init=False field: all key subsets x 2 values x chains of 2 calls (eager; jit and vmap for dict and NamedTuple).",
+        text="Per (program in {hierarchy with prediction nodes, GLM, transformed, transformed with a bijector class whose argument is a model variable, node/variable name clash, optional None-valued input, distreg, user log-prob node}, user-model auto_update on/off, LieselInterface; GooseModel for one config) histories of update_state calls on ONE interface instance are explored: part A eager calls with 4 positions x 3 states to closure of the canonical state (digest of the private copy's observable fields + last result + jit-cache signature); part B modes {eager, jit, vmap batch 3} with 2 positions x 3 states to depth 2 (thorough 3). Every transition is replayed on a fresh interface and checked against a fresh oracle model, a bit-exact differential table (history independence), deep snapshots of input state / position / user's model and of ALL states returned earlier in the history (bit-identical, no shared dict objects), extract_position round trips with both key kinds, and log_prob against the model and the scipy reference. Dict / NamedTuple / plain dataclass / dataclass with __post_init__ pre-processing and an init=False field: all key subsets x 2 values x chains of 2 calls (eager; jit and vmap for dict and NamedTuple); dataclass with nested-dataclass fields (identity put/get).",
         note="Input states are up to date and complete (documented precondition); ambiguous keys resolve node-first; jax.jit/vmap semantics and TFP densities trusted; merging histories relies on the canonical state covering every mutable field of the private copy.",
         ref="3/C03",
     ),
